@@ -381,6 +381,13 @@ func (e *Engine) exec(st *State, fr *Frame, ins ssa.Instruction) {
 	case *ssa.IndexAddr:
 		base := e.getv(st, fr, x.X)
 		idxT := e.get(fr, x.Index).(*Term)
+		if !idxT.isC && onlyLoaded(x) {
+			if sp, ok := e.symElemPtr(st, base, idxT, isSigned(x.Index.Type()), x); ok {
+				e.set(fr, x, sp)
+				fr.ip++
+				return
+			}
+		}
 		switch b := base.(type) {
 		case SliceVal:
 			i := e.boundsIdx(st, idxT, b.ln, isSigned(x.Index.Type()))
@@ -697,6 +704,61 @@ func decodeConcreteRune(b []*Term) (rune, int, bool) {
 	}
 	r, n := utf8.DecodeRune(buf)
 	return r, n, true
+}
+
+// onlyLoaded: every use of the address is a load.
+func onlyLoaded(x *ssa.IndexAddr) bool {
+	refs := x.Referrers()
+	if refs == nil || len(*refs) == 0 {
+		return false
+	}
+	for _, r := range *refs {
+		u, ok := r.(*ssa.UnOp)
+		if !ok || u.Op != token.MUL {
+			if _, dbg := r.(*ssa.DebugRef); dbg {
+				continue
+			}
+			return false
+		}
+	}
+	return true
+}
+
+// symElemPtr builds a symbolic element pointer into an array / slice of scalar terms.
+func (e *Engine) symElemPtr(st *State, base Value, idx *Term, signed bool, x *ssa.IndexAddr) (PtrVal, bool) {
+	var obj, n, off int
+	var path []int
+	switch b := base.(type) {
+	case SliceVal:
+		if b.obj < 0 {
+			return PtrVal{}, false
+		}
+		obj, path, n, off = b.obj, b.apath, b.ln, b.off
+	case PtrVal:
+		if b.obj < 0 || b.sym != nil {
+			return PtrVal{}, false
+		}
+		obj, path = b.obj, b.path
+		n = int(x.X.Type().Underlying().(*types.Pointer).Elem().Underlying().(*types.Array).Len())
+	default:
+		return PtrVal{}, false
+	}
+	if n == 0 || n > 512 {
+		return PtrVal{}, false
+	}
+	arr, ok := getPath(st.heapGet(obj), path).(ArrayVal)
+	if !ok {
+		return PtrVal{}, false
+	}
+	for i := 0; i < n; i++ {
+		if _, ok := arr.e[off+i].(*Term); !ok {
+			return PtrVal{}, false
+		}
+	}
+	if !st.decide(cmp("bvult", widen64(idx, signed), mkBV(64, uint64(n)))) {
+		panic(goPanic{msg: fmt.Sprintf("runtime error: index out of range [sym] with length %d", n)})
+	}
+	return PtrVal{obj: obj, path: path, sym: idx, symN: n, symOff: off}, true
 }
 
 func widen64(idx *Term, signed bool) *Term {
